@@ -2,11 +2,12 @@
 Require Extraction.
 Require Import ExtrOcamlBasic.
 Require Import NArith ZArith.
-From Verif Require Import BatchRPC.Model BatchRPC.System BatchRPC.RunLoop.
+From Verif Require Import BatchRPC.Model BatchRPC.System BatchRPC.RunLoop BatchRPC.Gate.
 Extraction Language OCaml.
 Extraction "batchrpc_model.ml"
   init step run lookup obs_identity obs_once obs_ok no_pending_of ids_of
   e_host e_st e_comp e_canceled e_ret next_id tab ent loops epoch closed outdated alloc
   xinit xstep xrun core chq inb pri asy sendloop ready round_ok quota_ok memb
   rl_exec rstep r_done
+  gate_priority gate_admits gate_result rc_active icpt_runs
   Pos.succ N.succ Z.succ. (* positive/N/Z: only so that ocaml/common/common.ml type-checks *)
